@@ -250,3 +250,10 @@ Definition gibbs_flat (d : nat) (P : zmat) (o ms : list Z) (n : nat) : list Z :=
            (map (fun i => if Nat.eqb i b then 1%Z else 0%Z) (seq 0 d)) n in
   (* row-major: entry (a, b) = (col b)[a] *)
   flat_map (fun a => map (fun b => nth a (col b) 0%Z) (seq 0 d)) (seq 0 d).
+
+(* ---- evaluation times of user callables (C15) ---------------------------------------------------- *)
+From OQ Require Import Model.TimeGrid.
+Definition prop_times_flat (start dt : float) (n : nat) : list Z :=
+  flat_map flat_fbits (all_prop_times start dt n).
+Definition float_steps_flat (dt start : float) (ts : list float) : list Z :=
+  map (fun t => step_of_time dt start t) ts.
